@@ -56,6 +56,13 @@ class VisitLeaves(Stage):
             # n_items leaves at level 2 (for the back-pressure obligation: more items than the bounded queue holds)
             leaves = [Pos(2, x, y) for y in range(4) for x in range(4)][:n_items]
             keep = set(leaves) | {Pos(1, p.x // 2, p.y // 2) for p in leaves}
+            if n_items == self.extract_count:
+                # a HISTORY on the Pyramid object: counted and visited at a shallower depth first, then deepened by the user
+                p = Pyramid.new_toast_filtered(1, lambda t: t.pos in keep)
+                p.count_leaf_tiles(), p.count_live_tiles(), p.count_operations()
+                p.visit_leaves(lambda pos, tile: None, parallel=1)
+                p.depth = 2
+                return p
             return Pyramid.new_toast_filtered(2, lambda t: t.pos in keep)
         keep = {Pos(1, 0, 0), Pos(1, 1, 1), Pos(1, 1, 0)}
         keep = set(list(sorted(keep))[:n_items]) if n_items < 3 else keep
